@@ -27,6 +27,9 @@ def script_spec(engine, gtype, policy, n, seed=11, variant=None):
     if variant == "units":
         sc["units"] = ["µm", "s", "nmol"]
         sc["system"]["units"] = ["µm", "s", "molecule"]
+    elif variant == "bc":
+        if sc["system"]["space"]["type"] == "grid":
+            sc["system"]["space"]["bc"] = {"x": "periodical"}
     elif variant == "redist":
         st = sc["system"]["state"]
         # an odd number (3) of entries >= 100 (normal-approximation branch), spread over the cells of one species so
@@ -232,6 +235,8 @@ def check_history(case):
             psc = script_spec(prev[0], prev[1], "on_iteration", 3, seed=5, variant=case.get("variant"))
             if case.get("variant") == "redist":
                 psc["system"]["state"] = psc["system"]["state"][:2] + [3.25, 7.0]      # a different number of large entries
+            if case.get("variant") == "bc" and psc["system"]["space"]["type"] == "grid":
+                psc["system"]["space"]["bc"] = {}      # same grid dimensions, the other boundary setting
             e_prev = eng.make_engine(prev[0])
             run_plain(e_prev, models.build_script(psc))
             if case["finalize_prev"]:
@@ -384,7 +389,7 @@ def gen_cases(tier, seed0):
                     if prev is None and not fin:
                         continue
                     for pol in (("on_t_sample", "on_iteration") if tier == "thorough" else ("on_t_sample",)):
-                        for var in (None, "units", "redist"):
+                        for var in (None, "units", "redist", "bc"):
                             c = {"sub": "history", "prev": prev, "this": list(this), "same_object": same, "finalize_prev": fin, "policy": pol}
                             if var:
                                 c["variant"] = var
